@@ -480,8 +480,40 @@ def check_image_readonly(ctx, quals=(QUAL, f"{IMG}.refine_droplets", f"{IMG}.loc
         fi = m.func(q)
         p = fi.params[0]
         bad = []
+        # local names for objects reached from the image through attributes only (`grid = image.grid`,
+        # `constraints = image.grid.coordinate_constraints`): the same objects, shared by every task that gets the image
+        alias = set()
+        changed_ = True
+        while changed_:
+            changed_ = False
+            for s in ast.walk(fi.node):
+                if isinstance(s, (ast.Assign, ast.AnnAssign)) and getattr(s, "value", None) is not None:
+                    tg_ = s.targets[0] if isinstance(s, ast.Assign) and len(s.targets) == 1 else getattr(s, "target", None)
+                    v_ = s.value
+                    root_ = v_
+                    while isinstance(root_, ast.Attribute):
+                        root_ = root_.value
+                    if isinstance(tg_, ast.Name) and isinstance(v_, ast.Attribute) and isinstance(root_, ast.Name) and (root_.id == p or root_.id in alias) and tg_.id not in alias:
+                        alias.add(tg_.id)
+                        changed_ = True
         for g in [fi] + [x for x in m.all_functions() if x.parent is fi]:
             for s in ast.walk(g.node):
+                if alias:
+                    if isinstance(s, ast.AugAssign) and isinstance(s.target, ast.Name) and s.target.id in alias and isinstance(s.value, (ast.List, ast.ListComp, ast.Tuple, ast.Set, ast.Dict)):
+                        bad.append((g, s))  # in-place extension of a shared list
+                    if isinstance(s, (ast.Assign, ast.AugAssign)):
+                        for t in (s.targets if isinstance(s, ast.Assign) else [s.target]):
+                            root = t
+                            while isinstance(root, (ast.Attribute, ast.Subscript)):
+                                root = root.value
+                            if isinstance(t, (ast.Attribute, ast.Subscript)) and isinstance(root, ast.Name) and root.id in alias:
+                                bad.append((g, s))
+                    if isinstance(s, ast.Call) and isinstance(s.func, ast.Attribute) and s.func.attr in MUTATORS | {"__iadd__", "__imul__"}:
+                        root = s.func.value
+                        while isinstance(root, (ast.Attribute, ast.Subscript)):
+                            root = root.value
+                        if isinstance(root, ast.Name) and root.id in alias:
+                            bad.append((g, s))
                 tg = s.targets if isinstance(s, ast.Assign) else ([s.target] if isinstance(s, ast.AugAssign) else [])
                 for t in tg:
                     root = t
@@ -500,7 +532,7 @@ def check_image_readonly(ctx, quals=(QUAL, f"{IMG}.refine_droplets", f"{IMG}.loc
                     if o is not None and p in names_in(o):
                         bad.append((g, s))
         ctx.decide(not bad, "EFFECT", f"{q}:{p}", (bad[0][0], bad[0][1]) if bad else fi, f"nothing is written through `{p}`",
-                   f"`{U(bad[0][1])[:70] if bad else ''}` writes through the input image `{p}`")
+                   f"`{U(bad[0][1])[:70] if bad else ''}` writes through the input image `{p}` (or an object reached from it, which every other task analysing the same image or grid shares)")
 
 
 # ---------------------------------------------------------------------------- LAYOUT
